@@ -775,6 +775,10 @@ namespace ip {
 
 	void tcp::socket::packet_dropped(aux::packet p)
 	{
+		// the connection is gone (end-of-file was read, which drops the
+		// channel): the notification has nobody to go to
+		if (!m_channel) return;
+
 		int remote = m_channel->remote_idx(m_bound_to);
 		p.hops = m_channel->hops[remote];
 		// the hop that dropped the packet consumed its notification
@@ -837,6 +841,10 @@ namespace ip {
 
 	void tcp::socket::incoming_packet(aux::packet p)
 	{
+		// packets of a connection this socket has already dropped (end-of-file
+		// was read) vanish
+		if (!m_channel) return;
+
 		switch (p.type)
 		{
 			case aux::packet::type_t::uninitialized:
